@@ -29,6 +29,23 @@ W3 = {"stakers": 2, "operators": 2, "assets": ["lst", "nst"], "holdops": ["o1"],
 # corresponding defect; TLC's shortest counterexample is replayed on the real code (DESIGN 2.2)
 LEADS = [("MC_Ledger_t.tla", "MC_Ledger_lead_atomic.cfg", W3)]
 
+# goal-directed generation: breadth-first TLC runs that print a shortest behaviour for every coverage
+# goal (named branch of the transcription, Ledger!Goals) -> (module, cfg, harness world)
+W4 = {"stakers": 2, "operators": 2, "assets": ["nat", "lst"], "holdops": ["o1"],
+      "scales": ["1", "1000003"], "blocksPer": 5, "modelPrec": 100}
+GOALS = [("MC_Ledger_goalA.tla", "MC_Ledger_goal_A.cfg", W1), ("MC_Ledger_goalA.tla", "MC_Ledger_goal_A2.cfg", W1),
+         ("MC_Ledger_goalB.tla", "MC_Ledger_goal_B.cfg", W3), ("MC_Ledger_n.tla", "MC_Ledger_goal_N.cfg", W4)]
+
+ALL_GOALS = """dep_ok wd_ok wd_over_balance_within_total wd_within_balance_over_total del_first_into_pool del_skewed_rate del_self
+del_native del_again_after_empty del_top_up del_with_codelegator del_over_withdrawable und_partial und_full_exit_others_remain
+und_last_share und_skewed_rate und_hold_placed und_native und_self und_second_pending_same_staker_asset und_over_position
+assoc_with_position dissoc_with_position hold_released eb_release eb_release_two_in_one_block eb_release_partly_slashed
+eb_release_fully_slashed eb_release_native eb_requeue_held eb_release_after_requeue slash_partial slash_full slash_wipes_pool
+slash_hits_pending_record slash_record_to_zero slash_spares_older_record slash_multi_asset slash_pool_fully_unbonding_other_bonded
+slash_infraction_at_current_height slash_replay slash_factor_above_one slash_zero_value_operator nst_up
+nst_down_within_withdrawable nst_down_ends_inside_pending_records nst_down_reaches_shares nst_down_shares_two_operators
+nst_down_zero_share_row_error""".split()
+
 TAG_UNIVERSE = {
     "C01": ["C01_Conservation", "C01_Published", "C01_Escrow", "C01_NonNegative", "C01_OnlyDepositsCreate"],
     "C02": ["C02_ShareSum", "C02_SelfShare", "C02_ListExact", "C02_EmptyPool", "C02_Fair", "C02_RoundTripIn", "C02_RoundTripOut"],
@@ -83,7 +100,7 @@ def _run(tier, seed, harness, d):
 
     def run_chunk(job):
         wname, ci, behs = job
-        w = WORLDS[wname]
+        w = worlds[wname]
         dt = os.path.join(d, f"trace-{wname}-{ci}")
         os.makedirs(dt)
         vlib.stage_specs(dt, with_override=True)
@@ -96,7 +113,7 @@ def _run(tier, seed, harness, d):
         tags, nstates = vlib.tlc_trace(dt, "Trace_Ledger.tla", "Trace_Ledger.cfg", timeout=3000)
         if nstates != len(lines) + 1:
             raise vlib.Infra(f"trace not fully consumed: {nstates} states for {len(lines)} lines")
-        return wname, ci, behs, lines, tags
+        return wname, ci, behs, lines, tags, vlib.LAST_COV.get(dt, [])
 
     import concurrent.futures as cf
     par = int(os.environ.get("VERIF_PAR", "6"))
@@ -108,22 +125,53 @@ def _run(tier, seed, harness, d):
         r, st = vlib.tlc_lead(dl, module, cfg)
         return cfg, hcfg, r, st
 
+    def goal(item):
+        module, cfg, hcfg = item
+        dl = os.path.join(d, "goal-" + cfg)
+        os.makedirs(dl)
+        vlib.stage_specs(dl, with_override=False)
+        out, rc = vlib.tlc(dl, module, cfg, workers=4, timeout=1500)
+        st = vlib.tlc_stats(out)
+        if st is None or "Error:" in out:
+            raise vlib.Infra(f"goal run {cfg} failed:\n" + out[-3000:])
+        found = {}
+        for line in out.split("\n"):
+            line = line.strip()
+            if line.startswith('"GOAL '):
+                g, beh = json.loads(line)[5:].split(" ", 1)
+                found.setdefault(g, set()).add(beh)
+        return cfg, hcfg, found, st
+
+    worlds = dict(WORLDS)
     with cf.ThreadPoolExecutor(max_workers=par) as ex:
-        gens = list(ex.map(gen_world, WORLDS.items()))
+        fg = [ex.submit(goal, g) for g in GOALS]
+        gens = list(ex.map(gen_world, worlds.items()))
         leads = list(ex.map(lead, LEADS))
+        goals = [f.result() for f in fg]
         jobs = []
         res["leads"] = []
         for cfg, hcfg, r, st in leads:
             res["leads"].append({"cfg": cfg, "invariant": r[0] if r else None, "behaviour": r[1] if r else None, "states": st["distinct"] if st else None})
             if r:
                 wname = "lead:" + cfg
-                WORLDS[wname] = dict(hcfg=hcfg)
+                worlds[wname] = dict(hcfg=hcfg)
                 jobs.append((wname, 0, [json.dumps(r[1])]))
+        res["goal_runs"] = []
+        for cfg, hcfg, found, st in goals:
+            wname = "goal:" + cfg
+            worlds[wname] = dict(hcfg=hcfg)
+            behs = sorted({b for bs in found.values() for b in sorted(bs)[:2]})
+            res["goal_runs"].append({"cfg": cfg, "goals_reached": sorted(found), "behaviours": len(behs), "states": st["distinct"]})
+            for ci in range(0, len(behs), chunk):
+                jobs.append((wname, ci, behs[ci:ci + chunk]))
         for wname, behs in gens:
             for ci in range(0, len(behs), chunk):
                 jobs.append((wname, ci, behs[ci:ci + chunk]))
         results = list(ex.map(run_chunk, jobs))
-    for wname, ci, behs, lines, tags in results:
+    covered = collections.Counter()
+    for wname, ci, behs, lines, tags, cov in results:
+        for g in cov:
+            covered[g] += 1
         bidx, starts = [], []
         cur = -1
         for i, ln in enumerate(lines):
@@ -150,6 +198,8 @@ def _run(tier, seed, harness, d):
         total_ev += len(lines)
         if not res["samples"]:
             res["samples"] = [{"behaviour": json.loads(behs[0]), "first_trace_lines": [{k: v for k, v in ln.items() if k != "st"} for ln in lines[1:6]]}]
+    res["extra"] = {"goals_covered_on_real_code": sorted(covered), "goal_runs": res.pop("goal_runs", []), "leads": res.pop("leads", []),
+                    "goals_not_covered": sorted(set(ALL_GOALS) - set(covered))}
     res["behaviours"] = total_beh
     res["events"] = total_ev
     res["event_counts"] = dict(counts)
@@ -190,7 +240,16 @@ def _same_key_before(t):
     return False
 
 
+def _withdraw_above_total(t):
+    """a rejected withdrawal on an asset whose balances were raised by a positive NST adjustment earlier in the behaviour"""
+    o = t["observed"]
+    if o["ev"] != "Withdraw" or o["ok"]:
+        return False
+    return any(x["ev"] == "NstUpdate" and x["ok"] and x["a"]["a"] == o["a"]["a"] and int(x["a"]["d"]) > 0 for x in t["history"])
+
+
 MATCHERS = {
+    "withdraw_above_total": _withdraw_above_total,
     "identical_undelegation_key": _same_key_before,
     # C03: secondary index keys collide for equal nonces
     "equal_nonce_undelegation": _collision_before,
